@@ -3,7 +3,7 @@
     buffer and hold for both; the statements below are specific to the comparison. *)
 From Coq Require Import ZArith List Lia.
 From OW Require Import Arrays.IntOps Arrays.View Arrays.Ops Arrays.IndexProofs Arrays.AffineProofs
-  Arrays.ContigProofs Arrays.MemProofs Arrays.ReshapeProofs Arrays.Exec Arrays.HistoryProofs Arrays.GoCProofs Arrays.BulkProofs Arrays.WrapperViews Arrays.WrapperViewsC.
+  Arrays.ContigProofs Arrays.MemProofs Arrays.ReshapeProofs Arrays.Exec Arrays.HistoryProofs Arrays.GoCProofs Arrays.GoCReshape Arrays.BulkProofs Arrays.WrapperViews Arrays.WrapperViewsC.
 Import ListNotations.
 Local Open Scope Z_scope.
 
@@ -105,10 +105,25 @@ Proof. exact (@get_set_total_off). Qed.
 Print Assumptions C03_slice_reshape_denotes_c.
 Print Assumptions C03_wrapper_output_row_c.
 
-(** NOT proved (C03_entry_point_partial): the reshape family and the whole-array helpers in
-    whole-history form (element laws for them: C02), and equality of the exported C entry point
-    (RunSingleModel) with the Go API, are established by the lock-step correspondence run and
-    the cdriver run only. *)
+(** ... and for histories over the WHOLE operation language except the write through an unrolled
+    slice (where the back-ends differ by design: Go aliases, C copies): Reshape / MustReshape /
+    ReshapeFast of contiguous and non-contiguous views, Scale / AddTo / ApplyFunc, Apply, Unroll,
+    ApplySlice, CopyFrom and all element-level operations, under the decidable guard [guardb2]
+    evaluated on the Go-side run (element accesses: any arguments on roots, slices and gathered
+    copies, in-window indices on re-sliced results of reshapes; bulk operations: in-box views with
+    steps >= 1 in different roots).  Same conclusion: results, panics, root contents and live
+    elements equal step by step. *)
+Theorem C03_go_c_histories_agree_reshape : forall ops,
+  guarded2 arr_init_state (map (set_backing false) ops) = true ->
+  arr_run_history arr_init_state (map (set_backing false) ops) =
+  arr_run_history arr_init_state (map (set_backing true) ops).
+Proof. exact go_c_histories_agree_reshape. Qed.
+Print Assumptions C03_go_c_histories_agree_reshape.
+
+(** NOT proved (C03_entry_point_partial): equality of the exported C entry point (RunSingleModel)
+    with the Go API is established by the cdriver correspondence run only (its view chains on
+    caller memory are the theorems C03_slice_reshape_denotes_c / C03_wrapper_output_row_c and
+    Properties/C04_views.v). *)
 Example C03_nonvacuous : exists h a,
   wf_arr (V:=Z) h a [2;3] (mkAview [0;0] [1;1] [2;3]) /\ get h a [1;2] = Some 6.
 Proof.
